@@ -105,6 +105,12 @@ def build(repo=None):
                 for s4, o4 in eng.run(node.body, s3):
                     mm = s4.get(memo_ref)
                     if o4.kind in ("normal", "continue"):
+                        # C16, from the statement itself: "using '?' outside a structured PyTree raises AnnotationError" -- an axis marked '?' may be passed over
+                        # only where a leaf label is in force (the fold above mirrors the code; this clause does not)
+                        eng.oblige(s4, "C16:a-'?'-axis-is-passed-only-under-a-leaf-label(AnnotationError-outside-a-structured-PyTree)",
+                                   z3.Implies(z3.And(dt.is_cls(dims[k], "_NamedDim"), dt.field(dims[k], "_NamedDim", "treepath")), AC.HasLabel),
+                                   dim_k=dims[k], size_k=shape[k], has_label=AC.HasLabel)
+                        s4.obl[-1]["serves"] = ["C16"]
                         eng.oblige(
                             s4,
                             "loop0:invariant-preserved",
